@@ -143,6 +143,9 @@ func sliceType(value Type) Type {
 }
 
 func mapType(key, value Type) Type {
+	if key&^typeMask != 0 { // only scalar key types fit the encoding (slices, maps, ... are not valid map keys in Go either)
+		panicf("invalid map key type")
+	}
 	return value<<(typeShift*2) | key<<typeShift | TypeMap
 }
 
